@@ -1,5 +1,5 @@
 /-
-C15 — discharging `L3Contracts` (NrfProofs/C15Contract.lean), part 1: the world.
+C15 — discharging `C15Contracts` (NrfProofs/C15Contract.lean), part 1: the world.
 
 What the transmit cycles that a CE edge / an SPI transaction triggers (`World.tryTransmit`) do to
 the *transmitter itself*, in ANY world (any other radios, any fault list): with ACK payloads off
